@@ -252,6 +252,12 @@ func (h *handler1) handleClientPublish(ctx context.Context, snPublish *snPkts1.P
 		}
 	case snPkts1.TIT_SHORT:
 		topic = snPkts.DecodeShortTopic(snPublish.TopicID)
+	default:
+		return fmt.Errorf("invalid topic id type %d", snPublish.TopicIDType)
+	}
+	// Wildcard characters are not allowed in MQTT PUBLISH topic name.
+	if hasWildcard(topic) {
+		return fmt.Errorf("invalid topic name %q", topic)
 	}
 	if snPublish.QOS == 1 {
 		h.transactions.Store(msgID, newClientPublishQOS1Transaction(ctx, h, msgID, snPublish.TopicID))
